@@ -148,7 +148,7 @@ def main():
             "guard": "PROJECT_TSURUGI_YAKUSHIMA_VERIF",
             "enable": "header-only library: every harness TU is compiled by the check itself from /repo/include with "
                       "-DPROJECT_TSURUGI_YAKUSHIMA_VERIF (tools/common.py build()); a harness installs yakushima::verif::g_hook at run time",
-            "baseline_off_cmd": "cmake --build /repo/_build && ctest --test-dir /repo/_build -j8 --timeout 900",
+            "baseline_off_cmd": "/verif/tools/baseline_off.sh",
             "source_commits": hook_commits(),
             "add_only": True,
         },
